@@ -2,7 +2,7 @@
    Inline new text and block insertions (new text with line breaks and / or Markdown heading lines: track_insert creates
    new paragraphs after the paragraph of the anchor) are both modelled.
    Every mutation of the document goes through the uid-addressed primitives of Prims.v. *)
-From Coq Require Import List NArith Bool Arith.
+From Coq Require Import List NArith ZArith Bool Arith.
 Import ListNotations.
 From Adeu Require Import Str Chars Doc Norm Prims ParaMachine Project DocOps Review Trim MarkupX Inst.
 
@@ -373,7 +373,9 @@ Inductive op := OpIns | OpDel | OpMod.
    1 edit inside / overlapping a pending insertion, 2 block insertion (line break or heading in the new text),
    3 the insertion anchor lies inside a tracked change, 4 the target runs are not direct children of one paragraph,
    5 the target overlaps a pending insertion only partially (or several insertions) *)
-Inductive outcome := Applied | Skipped | Outside (r : nat).
+(* AppliedN: applied through the nested-insertion shortcut (the pending insertion the edit starts in is replaced as a whole) *)
+(* SkippedN: the edit entered the nested-insertion shortcut and was skipped there *)
+Inductive outcome := Applied | AppliedN | Skipped | SkippedN | Outside (r : nat).
 Definition ends_with_space (s : str) : bool := match rev s with c :: _ => N.eqb c 32%N | [] => false end.
 Fixpoint has_sub (needle s : str) : bool := prefixb needle s || match s with [] => false | _ :: s' => has_sub needle s' end.
 Definition has_md (s : str) : bool := has_sub [42%N; 42%N] s || existsb (N.eqb 95%N) s.
@@ -395,6 +397,52 @@ Record est := { s_eng : eng; s_raw : list ospan; s_clean : option (list ospan); 
                 s_cmc : list comment (* comments when the accepted-view mapper was constructed *) }.
 Definition set_eng (s : est) (e : eng) : est := {| s_eng := e; s_raw := s_raw s; s_clean := s_clean s; s_cm0 := s_cm0 s; s_cmc := s_cmc s |}.
 
+(* ---------- the nested-insertion shortcut: an edit that starts inside a pending insertion replaces that insertion ---------- *)
+Fixpoint first_ins_node (i : str) (n : node) : option node :=      (* //w:ins[@w:id=i], document order *)
+  match n with
+  | NWrap u KIns m cs => if str_eqb (m_id m) i then Some n else first_some (first_ins_node i) cs
+  | NWrap _ _ _ cs => first_some (first_ins_node i) cs
+  | _ => None end.
+Definition first_ins (i : str) (d : doc) : option node :=
+  fold_left (fun acc p => match acc with Some _ => acc | None => first_some (first_ins_node i) (p_nodes p) end) (doc_paras d) None.
+Definition is_run_node (n : node) : bool := match n with NRun _ _ _ => true | _ => false end.
+(* track_insert with a style source that has just been removed from the tree (or with none): the paragraph of the anchor cannot
+   be found, so a heading-first text inserts nothing and further lines of a multi-line text are dropped; only the inline part
+   of the first line survives *)
+Definition nested_inline (e : eng) (text : str) (anchor : rpr) : eng * option node :=
+  match split_lines text with
+  | [] => (e, None)
+  | l0 :: rest =>
+    match snd (md_style l0) with
+    | Some _ => (e, None)
+    | None =>
+      let rest' := match last_opt rest with Some [] => removelast rest | _ => rest end in
+      match l0, rest' with
+      | [], _ :: _ => (e, None)
+      | _, _ => let '(e1, ins) := ins_inline e l0 anchor false in (e1, Some ins)
+      end
+    end
+  end.
+Definition nested_replace (s : est) (ins_id : str) (new comment : str) : est * outcome :=
+  let e := s_eng s in
+  match first_ins ins_id (e_doc e) with
+  | Some (NWrap u0 _ _ cs) =>
+    let style := match find is_run_node cs with Some (NRun _ f _) => f | _ => None end in
+    match new with
+    | [] => (set_eng s (with_doc e (reject_doc ins_id (e_doc e))), AppliedN)
+    | _ =>
+      let '(e1, oins) := nested_inline e new style in
+      match oins with
+      | None => (set_eng s (with_doc e1 (reject_doc ins_id (e_doc e1))), AppliedN)
+      | Some ins =>
+        let e2 := place_before e1 u0 ins in                        (* parent.insert(index, ins_elem): where the first w:ins was *)
+        let e3 := with_doc e2 (reject_doc ins_id (e_doc e2)) in     (* _reject_change: every w:ins / w:del with that id, in every story *)
+        (set_eng s (attach e3 (node_uid ins) (node_uid ins) comment), AppliedN)
+      end
+    end
+  | _ => (s, SkippedN)
+  end.
+
 (* _apply_single_edit_indexed. use_clean: the offsets refer to the accepted-view map (active_mapper) *)
 Definition apply_indexed (s : est) (use_clean : bool) (start : nat) (target new comment : str) (o : option op) : est * outcome :=
   let sp := if use_clean then match s_clean s with Some m => m | None => s_raw s end else s_raw s in
@@ -404,7 +452,7 @@ Definition apply_indexed (s : est) (use_clean : bool) (start : nat) (target new 
   let ctx := if 0 <? ln then find (fun x => o_real x && (start <? o_end x) && (o_start x <? start + ln)) sp else None in
   let inr := filter (fun x => o_real x && (start <? o_end x) && (o_start x <? start + ln)) sp in
   if match ctx with Some c => is_some_nonempty (o_ins c) | None => false end
-  then (s, Outside (if same_ins inr then 0 else 4))      (* edit inside a pending insertion (wholly / partially) *)
+  then nested_replace s (match ctx with Some c => match o_ins c with Some i => i | None => [] end | None => [] end) new comment
   else if negb (block_ok new) then (s, Outside 1)
   else match o with
   | OpIns =>
@@ -527,12 +575,25 @@ Definition locate (s : est) (target : str) (orc : list fm) : fm * bool * est * l
       end
     end
   end.
+(* s[:i] and s[j:] with Python's negative-index semantics *)
+Definition py_to (s : str) (i : Z) : str := if (0 <=? i)%Z then firstn (Z.to_nat i) s else firstn (length s - Z.to_nat (- i)) s.
+Definition py_from (s : str) (j : Z) : str := if (0 <=? j)%Z then skipn (Z.to_nat j) s else skipn (length s - Z.to_nat (- j)) s.
 Definition apply_located (s1 : est) (use_clean : bool) (st ml : nat) (new comment : str) : est * outcome :=
   let sp := if use_clean then match s_clean s1 with Some c => c | None => [] end else s_raw s1 in
   let inrange := filter (fun x => o_real x && (st <? o_end x) && (o_start x <? st + ml)) sp in
   if existsb (fun x => is_some_nonempty (o_del x)) inrange then (s1, Skipped)         (* D9 *)
-  else if existsb (fun x => is_some_nonempty (o_ins x)) inrange then (s1, Outside (if same_ins inrange then 0 else 4))     (* nested / partially overlapping insertion *)
-  else
+  else match find (fun x => is_some_nonempty (o_ins x)) (firstn 1 inrange) with
+  | Some c =>
+    (* the first real span of the match lies in a pending insertion: the whole insertion is rewritten (Python slice semantics) *)
+    let ins_spans := filter (fun x => o_real x && opt_str_eqb (o_ins x) (o_ins c)) sp in
+    let ins_start := match ins_spans with x :: _ => o_start x | [] => 0 end in
+    let full := flat_map o_text ins_spans in
+    let rel := (Z.of_nat st - Z.of_nat ins_start)%Z in
+    let expanded := py_to full rel ++ new ++ py_from full (rel + Z.of_nat ml)%Z in
+    (* (the rewritten edit is addressed in the coordinates of the active map but resolved on the raw map, as in the code) *)
+    let r := apply_indexed s1 false ins_start full expanded comment None in
+    (fst r, match snd r with Applied => AppliedN | Skipped => SkippedN | o => o end)
+  | None =>
     let actual := sub (map_text sp) st ml in
     if str_eqb actual new then (s1, Applied)
     else if prefixb actual new then apply_indexed s1 use_clean (st + ml) [] (skipn (length actual) new) comment (Some OpIns)
@@ -545,7 +606,8 @@ Definition apply_located (s1 : est) (use_clean : bool) (st ml : nat) (new commen
       | [], _ => apply_indexed s1 use_clean (st + fst ps) ft fn comment (Some OpIns)
       | _, [] => apply_indexed s1 use_clean (st + fst ps) ft fn comment (Some OpDel)
       | _, _ => apply_indexed s1 use_clean (st + fst ps) ft fn comment (Some OpMod)
-      end.
+      end
+  end.
 Definition apply_heuristic (s : est) (target new comment : str) (orc : list fm) : est * outcome * list fm :=
   match target with
   | [] => (s, Skipped, orc)
@@ -573,45 +635,50 @@ Fixpoint plan (text : str) (es : list edit) (orc : list fm) : list (edit * optio
            ((ed, match m with Some (st, ml) => Some (st, st + ml) | None => None end) :: l, o)
     end
   end.
-Definition step_heur (acc : est * nat * nat * nat * list fm * list (nat * nat)) (edp : edit * option (nat * nat)) :=
-  let '(s, ap, sk, out, orc, occ) := acc in
+Definition step_heur (acc : est * nat * nat * nat * list fm * list (nat * nat) * nat) (edp : edit * option (nat * nat)) :=
+  let '(s, ap, sk, out, orc, occ, nn) := acc in
   let '(ed, rng) := edp in
   if negb (Nat.eqb out 0) then acc else
-  if match rng with Some (a, b) => overl occ a b | None => false end then (s, ap, S sk, 0, orc, occ)
+  if match rng with Some (a, b) => overl occ a b | None => false end then (s, ap, S sk, 0, orc, occ, nn)
   else
     let '(s', oc, orc') := apply_heuristic s (ed_target ed) (ed_new ed) (ed_comment ed) orc in
     match oc with
-    | Applied => (rebuild s', S ap, sk, 0, orc', match rng with Some r => occ ++ [r] | None => occ end)
-    | Skipped => (s', ap, S sk, 0, orc', occ)
-    | Outside r => (s', ap, sk, S r, orc', occ)
+    | Applied => (rebuild s', S ap, sk, 0, orc', match rng with Some r => occ ++ [r] | None => occ end, nn)
+    | AppliedN => (rebuild s', S ap, sk, 0, orc', match rng with Some r => occ ++ [r] | None => occ end, S nn)
+    | Skipped => (s', ap, S sk, 0, orc', occ, nn)
+    | SkippedN => (s', ap, S sk, 0, orc', occ, S nn)
+    | Outside r => (s', ap, sk, S r, orc', occ, nn)
     end.
 Definition sort_len_desc (l : list edit) : list edit := sort_by (fun a b => length (ed_target b) <? length (ed_target a)) l.
 Definition idx_of (e : edit) : nat := match ed_index e with Some i => i | None => 0 end.
 Definition sort_idx_desc (l : list edit) : list edit := sort_by (fun a b => idx_of b <? idx_of a) l.
-Definition step_idx (acc : est * nat * nat * nat * list (nat * nat)) (ed : edit) :=
-  let '(s, ap, sk, out, occ) := acc in
+Definition step_idx (acc : est * nat * nat * nat * list (nat * nat) * nat) (ed : edit) :=
+  let '(s, ap, sk, out, occ, nn) := acc in
   if negb (Nat.eqb out 0) then acc else
   let st := idx_of ed in let en := st + length (ed_target ed) in
-  if overl occ st en then (s, ap, S sk, 0, occ)
+  if overl occ st en then (s, ap, S sk, 0, occ, nn)
   else let '(s', oc) := apply_indexed s false st (ed_target ed) (ed_new ed) (ed_comment ed) None in
        match oc with
-       | Applied => (s', S ap, sk, 0, occ ++ [(st, en)])
-       | Skipped => (s', ap, S sk, 0, occ)
-       | Outside r => (s', ap, sk, S r, occ)
+       | Applied => (s', S ap, sk, 0, occ ++ [(st, en)], nn)
+       | AppliedN => (s', S ap, sk, 0, occ ++ [(st, en)], S nn)
+       | Skipped => (s', ap, S sk, 0, occ, nn)
+       | SkippedN => (s', ap, S sk, 0, occ, S nn)
+       | Outside r => (s', ap, sk, S r, occ, nn)
        end.
-Definition apply_edits (d : doc) (author ts : str) (edits : list edit) (orc : list fm) : doc * nat * nat * nat :=
+(* result: document, applied, skipped, stop code (0 = none), number of nested-insertion replacements *)
+Definition apply_edits (d : doc) (author ts : str) (edits : list edit) (orc : list fm) : doc * nat * nat * nat * nat :=
   let e := mk_engine d author ts in
   let s0 := {| s_eng := e; s_raw := build_map false (d_comments (e_doc e)) (e_doc e); s_clean := None; s_cm0 := d_comments (e_doc e); s_cmc := [] |} in
   let indexed := filter (fun x => match ed_index x with Some _ => true | None => false end) edits in
   let heur := filter (fun x => match ed_index x with Some _ => false | None => true end) edits in
-  let '(s1, ap1, sk1, out1, occ1) := fold_left step_idx (sort_idx_desc indexed) (s0, 0, 0, 0, []) in
+  let '(s1, ap1, sk1, out1, occ1, nn1) := fold_left step_idx (sort_idx_desc indexed) (s0, 0, 0, 0, [], 0) in
   match heur with
-  | [] => (e_doc (s_eng s1), ap1, sk1, out1)
+  | [] => (e_doc (s_eng s1), ap1, sk1, out1, nn1)
   | _ =>
     let sr := rebuild s1 in
     let '(planned, orc1) := plan (map_text (s_raw sr)) (sort_len_desc heur) orc in
-    let '(s2, ap2, sk2, out2, _, _) := fold_left step_heur planned (sr, ap1, sk1, out1, orc1, occ1) in
-    (e_doc (s_eng s2), ap2, sk2, out2)
+    let '(s2, ap2, sk2, out2, _, _, nn2) := fold_left step_heur planned (sr, ap1, sk1, out1, orc1, occ1, nn1) in
+    (e_doc (s_eng s2), ap2, sk2, out2, nn2)
   end.
 
 (* ---------- REPLY: engine._reply_to_comment + _anchor_reply_comment + CommentsManager.add_comment(parent_id) ---------- *)
